@@ -128,6 +128,7 @@ class Harness:
         self.classes = {n: Sym(f"class:{n}") for n in _LIB_CLASSES}
         self.classes["PyEnum"] = Sym("class:PyEnum")
         self.captured: list[tuple[str, dict]] = []
+        self.cs_objects: dict[str, Sym] = {}
         self.mod = repo.module("compiler.py")
         self.entry = repo.func("compiler.py", "compile")
 
@@ -523,7 +524,13 @@ def generate(h: Harness, env: dict[str, Any], seq: tuple[str, ...], align: bool,
         f = Sym(f"field{i}", {"_name": f"f{i}", "name": f"f{i}", "type": types[base_of(n)], "bits": k.get("bits"), "offset": offs[i], "alignment": k["align"]})
         f.strict = True
         fields.append(f)
-    cs = Sym("cs", {"endian": "<", "pointer": types[pointer], "uint8": types["u8"], "align": align}, {"resolve": Host(lambda t: t)})
+    # one cstruct object per pointer configuration for the whole fold: whatever the generator keeps on it (or in its module) between two
+    # structures is kept here as well, so a reader handed out again for a different structure shows in that structure's values
+    cs = h.cs_objects.get(pointer)
+    if cs is None:
+        cs = h.cs_objects[pointer] = Sym(f"cs:{pointer}", {"endian": "<", "pointer": types[pointer], "uint8": types["u8"], "__dict__": {}}, {"resolve": Host(lambda t: t)})
+        cs.strict = True
+    cs.attrs["align"] = align
     structure = Sym("S", {"__fields__": fields, "fields": {f.attrs["name"]: f for f in fields}, "__align__": align, "alignment": alignment, "size": size, "cs": cs,
                           "__name__": "S", "__compiled__": False, "__model__": {"tags": {"BaseType", "Structure"}, "size": size, "meta": "StructureMetaType", "kind": "S"},
                           "dynamic": size is None})
